@@ -290,7 +290,7 @@ class Interp(object):
         elif how == "ML": Message.log(message_type=t, **f)
         elif how == "MLn": Message.log(**f)
         elif how in ("MW", "MWa"): Message.new(message_type=t, **f).write()
-        elif how == "Mb": Message.new(message_type=t).bind(**f).write()
+        elif how == "Mb": Message.new(message_type=t, **{k: "unbound" for k in f}).bind(**f).bind().write()
         elif how == "T": mt.log(**f)
         elif how == "Tw": mt(**f).write()
         else: raise RuntimeError("driver bug: message how %r" % (how,))
